@@ -878,7 +878,7 @@ register(PropertySpec(
                 "(duplicate suppression and caches act on runtime bindings); an operand sub-query that yields no row for a binding "
                 "hides the other side of an enclosing | (same construct as the C18 known finding).",
     assumptions=[],
-    design_ref="DESIGN.md §2 C15",
+    design_ref="DESIGN.md §2c, §4",
 ))
 
 
